@@ -284,6 +284,10 @@ def check(ctx):
     found = False
     for am in ams:
         st = prog.parent(am)
+        # idx = np.argmin(..).item() / int(np.argmin(..)): the index as a Python int
+        while isinstance(st, (ast.Attribute, ast.Call)) and (
+                (isinstance(st, ast.Attribute) and st.attr == "item") or (isinstance(st, ast.Call) and (isinstance(st.func, ast.Attribute) and st.func.attr == "item" or call_name(st) in ("int",)))):
+            st = prog.parent(st)
         if not isinstance(st, ast.Assign) or not isinstance(st.targets[0], ast.Name):
             continue
         idx = st.targets[0].id
